@@ -128,3 +128,17 @@ PROPS["C15"]["families"] = [GENERAL_S, fam("fam_quiesce", 40, 800), fam("fam_sch
 PROPS["C16"]["families"] = [fam("fam_mutex", 64, 1600), {"name": "fam_general_mutex", "gen": fam_general(lines=3, mutex=True), "quick": 30, "thorough": 600}]
 PROPS["C18"]["families"] = [GENERAL_S, fam("fam_sched", 32, 800), fam("fam_hold", 16, 300)]
 PROPS["C20"]["families"] = [GENERAL_S, fam("fam_hist", 80, 2000)]
+
+# direction 2: behaviours generated by TLC from the specification, replayed on the real code (lib/simreplay.py)
+import simreplay
+
+
+def sim(cfg, module, quick=30, thorough=600, depth=120):
+    return {"name": "sim_" + cfg, "gen": simreplay.fam_sim(module, "SIM_" + cfg, depth), "quick": quick, "thorough": thorough}
+
+
+_SIM = {"C01": ["MC_Line"], "C02": ["MC_Line"], "C03": ["MC_Args"], "C04": ["MC_Args"], "C05": ["MC_Args"], "C06": ["MC_Line"], "C08": ["MC_Args"],
+        "C09": ["MC_Flags"], "C10": ["MC_Codes"], "C11": ["MC_Sched"], "C12": ["MC_Sched"], "C13": ["MC_Ring", "MC_Sched"], "C14": ["MC_Hold"],
+        "C15": ["MC_Sched"], "C16": ["MC_Mutex"], "C18": ["MC_Sched", "MC_Hold"], "C19": ["MC_List"]}
+for _p, _l in _SIM.items():
+    PROPS[_p]["families"] = PROPS[_p]["families"] + [sim(c, c) for c in _l]
